@@ -64,8 +64,14 @@ func (u *memoryManagementUnit) doesExecutionMemoryChangesExistsInL3(execution ri
 	for addr := range execution.MemoryChanges {
 		addrs = append(addrs, addr)
 	}
-	_, _, exists := u.getFromL3(addrs)
-	return exists
+	// A store only asks whether its bytes are cached: it must not register a
+	// pending line fetch that nobody would ever complete
+	for _, addr := range addrs {
+		if _, exists := u.l3.Get(addr); !exists {
+			return false
+		}
+	}
+	return true
 }
 
 func (u *memoryManagementUnit) writeExecutionMemoryChangesToL3(execution risc.Execution) {
